@@ -252,7 +252,21 @@ func genRule(r *core.Rand, idx int, m c16Method) RuleSpec {
 // grammar, and says why.
 func mutate(r *core.Rand, rule RuleSpec, m c16Method) RuleSpec {
 	rule.Path, rule.Want = "", nil
-	switch r.Intn(13) {
+	switch r.Intn(14) {
+	case 13:
+		// a selector with an empty component (a field path is IDENT { "." IDENT })
+		sel := "payload"
+		if len(m.Body) > 0 {
+			sel = m.Body[r.Intn(len(m.Body))]
+		}
+		sel = []string{sel + ".", "." + sel, sel + "..x", ".", ".."}[r.Intn(5)]
+		if md := methodDesc(m.Service, m.Name); r.Chance(1, 2) && md.Output().Fields().Len() > 0 {
+			rule.RespBody = []string{string(md.Output().Fields().Get(0).Name()) + ".", "." + string(md.Output().Fields().Get(0).Name()), "."}[r.Intn(3)]
+			rule.Invalid = "response-body-selector-empty-component"
+		} else {
+			rule.Verb, rule.Body = "post", sel
+			rule.Invalid = "body-selector-empty-component"
+		}
 	case 9:
 		// a variable inside a variable's pattern
 		rule.Template += r.PickS("/{a={b}}", "/{text={user_id}}", "/{x=lit/{y}}", "/{a={b=*}}")
